@@ -20,6 +20,7 @@ L3 (oracle on the real code)
 """
 import json
 import math
+import os
 import shutil
 import tempfile
 from fractions import Fraction
@@ -162,7 +163,7 @@ def gen_decl(rng, valid=True):
     import ConfigSpace.hyperparameters as csh
 
     if valid:
-        k = rng.choice(["iu", "il", "fu", "fl", "mix", "cat", "cat_mixed", "cat_mixed", "bool", "ord_i", "ord_f", "ord_m", "const", "cs_int", "cs_float", "cs_cat_w", "cs_ord_s", "cs_const"])
+        k = rng.choice(["iu", "il", "fu", "fl", "mix", "mix", "cat", "cat_mixed", "cat_mixed", "bool", "ord_i", "ord_f", "ord_m", "const", "cs_int", "cs_float", "cs_cat_w", "cs_ord_s", "cs_const"])
         if k in ("iu", "il"):
             lo = rng.choice([0, 1, 2, -5, 10, 100, 1]) if k == "iu" else rng.choice([1, 2, 8, 16])
             hi = lo + rng.choice([1, 2, 3, 7, 9, 30, 1000, 10 ** 6])
@@ -176,7 +177,7 @@ def gen_decl(rng, valid=True):
             hi = lo * rng.choice([10.0, 1e3, 1e6, 2.0]) if rng.random() < 0.8 else 7e3
             return (lo, hi, "log-uniform")
         if k == "mix":
-            return rng.choice([(1, 4.0), (0.5, 3), (1, 100.0, "log-uniform")])
+            return rng.choice([(1, 4.0), (0.5, 3), (1, 100.0, "log-uniform"), (0, 1.5), (0.0, 4), (2, 2.5, "uniform"), (-3, 0.5)])
         if k == "cat":
             return rng.sample(_WORDS, rng.choice([1, 2, 3, 4, 6]))
         if k == "cat_mixed":  # accepted by add_hyperparameter: any list with a str/bool is a categorical
@@ -271,6 +272,7 @@ def structure_case(ck, d, seed):
     raw_values = []
     problem = HpProblem()
     steps = []
+    declared = {}         # name -> the shorthand as written (accepted ones)
     history = []          # the construction history: adds, conditions / forbidden clauses, reads - in this order
     cstate = {"children": set(), "parents": set()}
     surrogate = rng.choice(["RF", "ET", "GP", None, "GBRT", "DUMMY", "HGBRT", "MF"])
@@ -302,6 +304,8 @@ def structure_case(ck, d, seed):
                   else (problem.add_hyperparameters([value]) if plural else problem.add_hyperparameter(value)))
         steps.append("ok" if out.exc is None else err_kind(out.exc))
         adds.append({"value": shorthand_wire(value), "name": name_arg, "py": describe(value)})
+        if out.exc is None and not isinstance(value, csh.Hyperparameter):
+            declared[name_arg] = value
         history.append("add:" + str(nm))
         ck.count("add:" + (shorthand_wire(value)["k"]) + ":" + steps[-1])
         read_and_check("add_hyperparameter:" + str(nm))
@@ -317,17 +321,16 @@ def structure_case(ck, d, seed):
     ck.case(case, nontrivial=steps.count("ok") >= 1)
     rep = d.ask({"op": "adds", "adds": [{"value": a["value"], "name": a["name"]} for a in adds], "R": r_table(raw_values)})
     real_hps = [cshp_wire(h) for h in problem.space.values()]
+    # a disagreement with the model is recorded (L2) but the oracles below still judge the REAL objects (L3)
     if rep["steps"] != steps:
         ck.mismatch(case, {"what": "add_hyperparameter accepted/raised", "impl": steps, "model": rep["steps"]})
-        return
     if problem.space.conditions:
         # ConfigSpace lists parents first: the model's alphabetical insertion only fixes the SET of hyperparameters
         same = sorted(rep["hps"], key=lambda h: h["name"]) == sorted(real_hps, key=lambda h: h["name"])
     else:
         same = rep["names"] == list(problem.space.keys()) and rep["hps"] == real_hps
-    if not same:
+    if not same and rep["steps"] == steps:
         ck.mismatch(case, {"what": "hyperparameters after the adds (ConfigSpace order)", "impl": real_hps, "model": rep["hps"]})
-        return
     if not real_hps:
         return
     # conditions / forbidden clauses between arbitrary (not alphabetically ordered) names: ConfigSpace then lists
@@ -358,6 +361,75 @@ def structure_case(ck, d, seed):
         else:
             check_points_by_name(ck, case, problem, rows.val, path)
             problem_accessors(ck, case, problem, sp, rows.val)
+            judge_declarations(ck, case, problem, sp, rows.val, declared)
+
+
+def declared_spec(value):
+    """what a shorthand DENOTES, read off the declaration itself (independently of the model and of the code):
+    a range with a float bound is a real range, with only integer bounds an integer range, with exactly these bounds;
+    a list with a str/bool is a categorical over exactly these objects, a numeric list an ordinal; a scalar a constant"""
+    if isinstance(value, tuple):
+        a, b = value[0], value[1]
+        log = len(value) == 3 and value[2] == "log-uniform"
+        if isinstance(a, float) or isinstance(b, float):
+            return {"kind": "real", "lo": float(np.round(float(a), 13)), "hi": float(np.round(float(b), 13)), "log": log,
+                    "sig": "tuple[%s,%s]" % (type(a).__name__, type(b).__name__)}
+        return {"kind": "int", "lo": int(a), "hi": int(b), "log": log, "sig": "tuple[%s,%s]" % (type(a).__name__, type(b).__name__)}
+    if isinstance(value, list):
+        return {"kind": "choices", "choices": list(value), "sig": "list"}
+    return {"kind": "choices", "choices": [value], "sig": "scalar"}
+
+
+def judge_declarations(ck, case, problem, sp, rows, declared):
+    """clause declaration-kind-bounds: hyperparameter, converted dimension and every sampled value against the declaration"""
+    import ConfigSpace.hyperparameters as csh
+    from deephyper.skopt.space import Categorical, Integer, Real
+
+    names = list(problem.space.keys())
+    for nm, value in declared.items():
+        if nm not in names:
+            continue
+        spec = declared_spec(value)
+        hp = problem.space[nm]
+        dm = sp.dimensions[names.index(nm)] if len(sp.dimensions) == len(names) and sp.dimension_names == names else None
+        col = [r[names.index(nm)] for r in rows if len(r) == len(names)]
+        bad = None
+        if spec["kind"] in ("real", "int"):
+            want_hp = csh.UniformFloatHyperparameter if spec["kind"] == "real" else csh.UniformIntegerHyperparameter
+            want_dm = Real if spec["kind"] == "real" else Integer
+            pytype = float if spec["kind"] == "real" else int
+            if type(hp) is not want_hp:
+                bad = ("kind", f"declared a {spec['kind']} range, got {type(hp).__name__}")
+            elif (hp.lower, hp.upper) != (spec["lo"], spec["hi"]) or type(hp.lower) is not pytype or bool(hp.log) != spec["log"]:
+                bad = ("bounds", f"declared [{spec['lo']}, {spec['hi']}] log={spec['log']}, hyperparameter has [{hp.lower}, {hp.upper}] log={hp.log}")
+            elif dm is not None and (type(dm) is not want_dm or (dm.low, dm.high) != (spec["lo"], spec["hi"]) or (dm.prior == "log-uniform") != spec["log"]):
+                bad = ("dimension", f"declared [{spec['lo']}, {spec['hi']}], dimension is {dm!r}")
+            else:
+                for v in col:
+                    t = tag(v)
+                    ok = t["t"] == ("f" if spec["kind"] == "real" else "i") and spec["lo"] <= untag(t) <= spec["hi"]
+                    if not ok:
+                        bad = ("sample", f"sampled {v!r} ({type(v).__name__}) for the declared {spec['kind']} range [{spec['lo']}, {spec['hi']}]")
+                        break
+        else:
+            have = list(hp.choices) if isinstance(hp, csh.CategoricalHyperparameter) else list(hp.sequence) if isinstance(hp, csh.OrdinalHyperparameter) \
+                else [hp.value] if isinstance(hp, csh.Constant) else None
+            if have is None or [tag(c) for c in have] != [tag(c) for c in spec["choices"]]:
+                bad = ("choices", f"declared {spec['choices']!r}, hyperparameter is {hp!r}"[:300])
+            elif dm is not None and (not isinstance(dm, Categorical) or [tag(c) for c in dm.categories] != [tag(c) for c in spec["choices"]]):
+                bad = ("dimension", f"declared {spec['choices']!r}, dimension is {dm!r}"[:300])
+            else:
+                loose = sp.config_space is not None
+                for v in col:
+                    if not any(tag(v) == tag(c) or (loose and isinstance(c, (int, float)) and not isinstance(c, bool)
+                                                    and isinstance(v, (int, float, np.integer, np.floating)) and not isinstance(v, (bool, np.bool_)) and v == c)
+                               for c in spec["choices"]):
+                        bad = ("sample", f"sampled {v!r} ({type(v).__name__}) for the declared choices {spec['choices']!r}"[:300])
+                        break
+        if bad:
+            ck.fail(f"C10|declaration-kind-bounds|check_hyperparameter|{spec['sig']}:{bad[0]}",
+                    "the hyperparameter / dimension / samples do not have the kind and bounds the shorthand declares: " + bad[1],
+                    case, {"name": nm, "declaration": repr(value), "hyperparameter": repr(hp)[:200]})
 
 
 def problem_accessors(ck, case, problem, sp, rows):
@@ -924,8 +996,10 @@ def law_case(ck, d, seed, n):
     # (1) flat Space.rvs
     sp = convert_to_skopt_space(problem.space, surrogate_model="RF")
     check_dimension_order(ck, problem, sp, base_case)
-    rows = sp.rvs(n, random_state=np.random.RandomState(seed))
-    judge_rows(ck, "Space.rvs:flat", problem, descs, rows, base_case)
+    nj = random.Random(seed).choice([1, 2, 4])
+    ck.count("law:Space.rvs:flat:n_jobs=%d" % nj)
+    rows = sp.rvs(n, random_state=np.random.RandomState(seed), n_jobs=nj)
+    judge_rows(ck, "Space.rvs:flat", problem, descs, rows, {**base_case, "n_jobs": nj})
     # (2) Optimizer.ask in the initial phase with the GP surrogate (every dimension normalized)
     sp = convert_to_skopt_space(problem.space, surrogate_model="GP")
     out = Out(lambda: Optimizer(sp, base_estimator="GP", n_initial_points=10 ** 9, random_state=seed,
@@ -1150,6 +1224,88 @@ def cs_int_log_case(ck, d, rng):
             ck.mismatch(case, {"what": "ConfigSpace integer log-uniform sampler vs its model (csIntLogSample)", "impl": real, "model": rep["vals"]})
 
 
+def njobs_case(ck, seed):
+    """flat path with n_jobs in {1, 2, 4}: Space.rvs, Optimizer.ask (initial phase) and CBO.ask must give, for the same seed,
+    the design n_jobs=1 gives (that is what the code does: one child stream per dimension, shared-memory workers), all
+    points legal by name"""
+    import random
+
+    from deephyper.hpo._problem import convert_to_skopt_space
+    from deephyper.skopt import Optimizer
+
+    problem, descs = law_problem(random.Random(seed))
+    base_case = {"kind": "n_jobs", "seed": seed}
+    ck.case(base_case)
+    n = 120
+    ref = None
+    for nj in (1, 2, 4):
+        sp = convert_to_skopt_space(problem.space, surrogate_model="RF")
+        o = Out(lambda: sp.rvs(n, random_state=seed, n_jobs=nj))
+        ck.count("n_jobs:Space.rvs:%d" % nj)
+        if o.exc is not None:
+            ck.fail(f"C10|raises:{err_kind(o.exc)}|Space.rvs:flat|n_jobs={nj}", "Space.rvs raises", {**base_case, "n_jobs": nj}, repr(o.exc))
+            continue
+        check_points_by_name(ck, {**base_case, "n_jobs": nj, "path": "Space.rvs:flat"}, problem, o.val, "Space.rvs:flat")
+        rows = [[tag(v) for v in r] for r in o.val]
+        if nj == 1:
+            ref = rows
+        elif rows != ref:
+            ck.fail(f"C10|n_jobs-independent|Space.rvs:flat|n_jobs>1", "Space.rvs with n_jobs > 1 does not return the design of n_jobs=1 for the same seed",
+                    {**base_case, "n_jobs": nj}, {"n_jobs=1": repr(ref[:2])[:300], f"n_jobs={nj}": repr(rows[:2])[:300]})
+    ref = None
+    for nj in (1, 2):
+        sp = convert_to_skopt_space(problem.space, surrogate_model="RF")
+        o = Out(lambda: Optimizer(sp, base_estimator="RF", n_initial_points=10 ** 9, random_state=seed,
+                                  acq_optimizer_kwargs={"n_points": 40, "filter_duplicated": False, "n_jobs": nj}))
+        if o.exc is not None:
+            ck.count("n_jobs:Optimizer-unavailable:" + type(o.exc).__name__)
+            break
+        pts = Out(lambda: [o.val.ask() for _ in range(3)] + o.val.ask(n_points=20))
+        ck.count("n_jobs:Optimizer.ask:%d" % nj)
+        if pts.exc is not None:
+            ck.fail(f"C10|raises:{err_kind(pts.exc)}|Optimizer.ask:RF|n_jobs={nj}", "Optimizer.ask raises", {**base_case, "n_jobs": nj}, repr(pts.exc))
+            continue
+        check_points_by_name(ck, {**base_case, "n_jobs": nj, "path": "Optimizer.ask:RF"}, problem, pts.val, "Space.rvs:flat")
+        rows = [[tag(v) for v in r] for r in pts.val]
+        if nj == 1:
+            ref = rows
+        elif rows != ref:
+            ck.fail("C10|n_jobs-independent|Optimizer.ask:RF|n_jobs>1", "Optimizer.ask with n_jobs > 1 does not return the points of n_jobs=1 for the same seed",
+                    {**base_case, "n_jobs": nj}, {"n_jobs=1": repr(ref[:2])[:300], f"n_jobs={nj}": repr(rows[:2])[:300]})
+    tmp = tempfile.mkdtemp(prefix="c10_")
+    try:
+        from deephyper.hpo import CBO
+
+        names = list(problem.hyperparameter_names)
+        ref = None
+        for nj in (1, 2):
+            seen = []
+
+            def run(job):  # what CBO hands to the evaluator: the configurations of its initial design, as Python objects
+                seen.append(dict(job.parameters))
+                return 0.0
+
+            o = Out(lambda: CBO(problem, run, random_state=seed, log_dir=os.path.join(tmp, "nj%d" % nj), surrogate_model="RF", n_jobs=nj, n_points=40,
+                                n_initial_points=40, verbose=0).search(max_evals=12))
+            ck.count("n_jobs:CBO.search:%d" % nj)
+            if o.exc is not None:
+                ck.count("n_jobs:CBO-unavailable:" + type(o.exc).__name__)
+                break
+            if any(sorted(c) != sorted(names) for c in seen):
+                ck.fail("C10|names|CBO.search|keys", "a configuration handed to the evaluator does not have exactly the problem's hyperparameters",
+                        {**base_case, "n_jobs": nj}, {"keys": sorted(seen[0]) if seen else None})
+                continue
+            check_points_by_name(ck, {**base_case, "n_jobs": nj, "path": "CBO.search"}, problem, [[c[nm] for nm in names] for c in seen], "Space.rvs:flat")
+            rows = [[tag(c[nm]) for nm in names] for c in seen]
+            if nj == 1:
+                ref = rows
+            elif rows != ref:
+                ck.fail("C10|n_jobs-independent|CBO.search|n_jobs>1", "CBO with n_jobs > 1 does not evaluate the initial design of n_jobs=1 for the same seed",
+                        {**base_case, "n_jobs": nj}, {"n_jobs=1": repr(ref[:2])[:300], f"n_jobs={nj}": repr(rows[:2])[:300]})
+    finally:
+        shutil.rmtree(tmp, ignore_errors=True)
+
+
 def corpus_cases():
     dd = common.VERIF / "corpus" / "C10"
     for f in sorted(dd.glob("*.json")):
@@ -1245,6 +1401,8 @@ def run(ck):
             sampler_case(ck, d, rng)
         for _ in range(ck.pick(25, 200)):
             rvs_history_case(ck, rng.randint(0, 2 ** 20))
+        for _ in range(ck.pick(2, 12)):
+            njobs_case(ck, rng.randint(0, 2 ** 20))
         for _ in range(ck.pick(2, 7)):
             law_case(ck, d, rng.randint(0, 2 ** 20), n)
         for _ in range(ck.pick(1, 3)):
@@ -1259,6 +1417,8 @@ def replay(ck, case):
             run_corpus_case(ck, d, case)
         elif case.get("kind") == "rvs-history":
             rvs_history_case(ck, case["seed"])
+        elif case.get("kind") == "n_jobs":
+            njobs_case(ck, case["seed"])
         elif case.get("kind") == "small-calls":
             small_calls_case(ck, case["seed"], case.get("calls", 400))
         elif case.get("kind") == "structure" and "seed" in case:
